@@ -7,6 +7,7 @@ pub mod backend;
 pub mod middle;
 pub mod c11;
 pub mod matrix;
+pub mod loops;
 pub mod c14;
 pub mod c15;
 pub mod c16;
